@@ -31,6 +31,10 @@ pub enum ROp {
     /// Take every reference other threads have sent so far.
     Recv,
     Yield(u8),
+    /// Wait (bounded) until two threads have reached rendezvous point `id`: lines two threads up so
+    /// that what they do next - typically dropping the last two references to one instance -
+    /// happens at the same time.
+    Rendezvous(u8),
 }
 
 #[derive(Clone, Debug, Serialize, Deserialize)]
@@ -88,6 +92,7 @@ impl WraceScenario {
         txs: Vec<Sender<H>>,
         rx: Receiver<H>,
         sync: &[AtomicU32; 3],
+        rv: &[AtomicU32; 16],
         leftovers: &Mutex<Vec<H>>,
     ) -> Vec<Ev> {
         tracked::set_tid(t);
@@ -149,6 +154,16 @@ impl WraceScenario {
                         std::thread::yield_now();
                     }
                 }
+                ROp::Rendezvous(id) => {
+                    let c = &rv[usize::from(*id) % rv.len()];
+                    // Relaxed: lines the threads up without ordering their memory accesses.
+                    c.fetch_add(1, Ordering::Relaxed);
+                    let mut spins = 0_u32;
+                    while c.load(Ordering::Relaxed) < 2 && spins < 3000 {
+                        std::thread::yield_now();
+                        spins += 1;
+                    }
+                }
             }
         }
         if anchored {
@@ -188,6 +203,32 @@ impl WraceScenario {
 impl Scenario for WraceScenario {
     fn generate(rng: &mut Rng, _mode: &str) -> Self {
         let n = rng.range_usize(2, 3);
+        let anchored = avoiding(KEY_FOREIGN);
+        if !anchored && rng.chance(1, 3) {
+            // Directed shape: the last two references aligned to one instance are dropped by two
+            // threads at the same moment (the count test and the map clean-up of a reference drop
+            // must be atomic with respect to each other).
+            // Several rounds per scenario: each round lines the two threads up again.
+            let rounds = rng.range_usize(3, 7);
+            let mut t0 = Vec::new();
+            let mut t1 = Vec::new();
+            for r in 0..rounds {
+                let (a, b) = ((2 * r) as u8, (2 * r + 1) as u8);
+                t0.extend([ROp::Acquire, ROp::CloneHeld(0), ROp::Send { to: 1, k: 1 }, ROp::Rendezvous(a), ROp::Rendezvous(b)]);
+                t1.extend([ROp::Rendezvous(a), ROp::Recv, ROp::Rendezvous(b)]);
+                for t in [&mut t0, &mut t1] {
+                    if rng.chance(1, 3) {
+                        t.push(ROp::Yield(rng.range(1, 2) as u8));
+                    }
+                    t.push(ROp::DropHeld(0));
+                }
+            }
+            let mut threads = vec![t0, t1];
+            if n == 3 {
+                threads.push(vec![ROp::Acquire, ROp::Yield(2), ROp::DropHeld(0)]);
+            }
+            return Self { threads, anchored };
+        }
         let threads = (0..n)
             .map(|_| {
                 let len = rng.range_usize(2, 8);
@@ -219,6 +260,10 @@ impl Scenario for WraceScenario {
         let family_tag = first.obs().tag;
         let wrapper = InstancePerThreadSync::new(first);
         let sync: Arc<[AtomicU32; 3]> = Arc::new([AtomicU32::new(0), AtomicU32::new(0), AtomicU32::new(0)]);
+        let rv: Arc<[AtomicU32; 16]> = Arc::new([const { AtomicU32::new(0) }; 16]);
+        if self.threads.iter().any(|s| s.iter().any(|o| matches!(o, ROp::Rendezvous(_)))) {
+            ctx.probe("two-threads-lined-up-before-dropping");
+        }
         let leftovers: Arc<Mutex<Vec<H>>> = Arc::new(Mutex::new(Vec::new()));
         let mut txs = Vec::new();
         let mut rxs = Vec::new();
@@ -233,10 +278,11 @@ impl Scenario for WraceScenario {
             let w = wrapper.clone();
             let txs = txs.clone();
             let sync = Arc::clone(&sync);
+            let rv = Arc::clone(&rv);
             let leftovers = Arc::clone(&leftovers);
             let anchored = self.anchored;
             handles.push(std::thread::spawn(move || {
-                Self::thread_body(t as u32, n as u32, &script, anchored, w, txs, rx, &sync, &leftovers)
+                Self::thread_body(t as u32, n as u32, &script, anchored, w, txs, rx, &sync, &rv, &leftovers)
             }));
         }
         drop(txs);
